@@ -112,10 +112,18 @@ def generate_frac_sweep(idx, tier='quick'):
     rng = K.derive_rng('%s:C19-frac:%d' % (BASE_SEED, block), 'program')
     shared = rng.choice(corpus.T.VERSIONS)
     actors = []
+    # every third program: all actors encode textual values that were given the same (caller-owned) list
+    # of highlight ranges -- the "objects mutated during encoding" anchor of the property
+    kinds = ['highlight_encode'] if block % 3 == 1 else \
+        ['segment_build', 'parse_segment', 'field_override', 'group_build', 'group_build', 'group_build', 'highlight_encode']
+    hl = rng.randrange(len(corpus.SHARED_HIGHLIGHTS))
     for a in range(rng.choice([2, 2, 3])):
         tok = gen.Tokens(start=a * 100000 + block * 100, prefix='abcd'[a])
-        actors.append([corpus.gen_call(rng, tok, cid='abcd'[a], kinds=['segment_build', 'parse_segment', 'field_override', 'group_build', 'group_build', 'group_build', 'highlight_encode', 'highlight_encode'],
+        actors.append([corpus.gen_call(rng, tok, cid='abcd'[a], kinds=kinds,
                                        invalid_p=0.0, version=shared if rng.random() < 0.7 else None)])
+        for c in actors[-1]:
+            if c['kind'] == 'highlight_encode':
+                c['hl'] = hl
     j = idx % SWEEP_G
     # even j: a fraction of all line events of actor 0; odd j: a fraction of its line events inside the
     # structure-lookup layer (find_child_reference, create_element, set, ... and the state-owning modules)
